@@ -167,10 +167,17 @@ func (f *file) asyncReadNow(b []byte, readSoFar int, readAll bool, cb AsyncCallb
 	n, err := f.Read(b[readSoFar:])
 	readSoFar += n
 
+	// A partial read without error while reading all: keep reading until the buffer is full, the read would block or
+	// it fails.
+	for err == nil && readAll && readSoFar != len(b) {
+		n, err = f.Read(b[readSoFar:])
+		readSoFar += n
+	}
+
 	// f is a nonblocking fd so if err == ErrWouldBlock
 	// then we need to schedule an async read.
 
-	if err == nil && !(readAll && readSoFar != len(b)) {
+	if err == nil {
 		// If readAll == true then read fully without errors.
 		// If readAll == false then read some without errors.
 		// We are done.
@@ -230,7 +237,14 @@ func (f *file) asyncWriteNow(b []byte, wroteSoFar int, writeAll bool, cb AsyncCa
 	n, err := f.Write(b[wroteSoFar:])
 	wroteSoFar += n
 
-	if err == nil && !(writeAll && wroteSoFar != len(b)) {
+	// A partial write without error while writing all: keep writing until everything is written, the write would
+	// block or it fails.
+	for err == nil && writeAll && wroteSoFar != len(b) {
+		n, err = f.Write(b[wroteSoFar:])
+		wroteSoFar += n
+	}
+
+	if err == nil {
 		// If writeAll == true then we wrote fully without errors.
 		// If writeAll == false then we wrote some without errors.
 		cb(nil, wroteSoFar)
